@@ -154,6 +154,8 @@ static struct Run {
   bool shuffle = false, dtype_unknown = false, ledger_on = true, passthrough = false;
   int short_reads = 0;           // 0: whole-buffer reads through the real FILE; n>0: cookie stream, chunks 1..n
   int fill = -1;                 // fill byte for fresh heap bytes, -1: none
+  uint64_t errno_noise = 0;      // != 0: errno holds a seeded value after every SUCCESSFUL wrapped libc call and at every API entry
+  long long n_errno_noise = 0;
   Rng io;
   // event log (appended only by the baton holder)
   std::vector<Event> ev;
@@ -168,6 +170,17 @@ static struct Run {
   long long n_fopen = 0, n_fclose = 0;
   std::vector<json> anomalies;
 } R;
+// POSIX leaves errno unspecified after a successful call; a caller may also enter the library with any errno.
+// Fault kind "errno_noise": seeded garbage in errno wherever that is legal.
+static inline int en(int e, bool ok) {
+  if (!ok || !R.errno_noise) return e;
+  R.errno_noise += 0x9E3779B97F4A7C15ull;
+  uint64_t z = R.errno_noise; z = (z ^ (z >> 30)) * 0xBF58476D1CE4E5B9ull; z = (z ^ (z >> 27)) * 0x94D049BB133111EBull; z ^= z >> 31;
+  static const int tab[] = {0, ERANGE, EINTR, ENOENT, ENOMEM, EAGAIN, ENOTTY, EINVAL};
+  int v = tab[z & 7];
+  if (v) R.n_errno_noise++;
+  return v;
+}
 
 struct TaskCtx {
   int id = 0;
@@ -193,7 +206,7 @@ void AnnotateIgnoreWritesEnd(const char *, int) __attribute__((weak));
 }
 static inline void tsan_ignore_begin() { if (AnnotateIgnoreReadsBegin) { AnnotateIgnoreReadsBegin(__FILE__, __LINE__); AnnotateIgnoreWritesBegin(__FILE__, __LINE__); } }
 static inline void tsan_ignore_end() { if (AnnotateIgnoreReadsEnd) { AnnotateIgnoreReadsEnd(__FILE__, __LINE__); AnnotateIgnoreWritesEnd(__FILE__, __LINE__); } }
-static inline void lib_enter() { tc->inlib++; if (tc->inlib == 1) tsan_ignore_end(); }
+static inline void lib_enter() { tc->inlib++; if (tc->inlib == 1) { tsan_ignore_end(); errno = en(errno, true); } }
 static inline void lib_leave() { if (tc->inlib == 1) tsan_ignore_begin(); tc->inlib--; }
 struct WrapGuard {
   bool on;
@@ -267,12 +280,12 @@ char *__real_realpath(const char *, char *);
 
 void *__wrap_malloc(size_t n) {
   void *p = __real_malloc(n);
-  if (in_lib()) { WrapGuard g; if (p && R.fill >= 0) memset(p, R.fill, n); led_add(p, n, "malloc", __builtin_return_address(0)); }
+  if (in_lib()) { WrapGuard g; if (p && R.fill >= 0) memset(p, R.fill, n); led_add(p, n, "malloc", __builtin_return_address(0)); if (p) errno = en(errno, true); }
   return p;
 }
 void *__wrap_calloc(size_t a, size_t b) {
   void *p = __real_calloc(a, b);
-  if (in_lib()) { WrapGuard g; led_add(p, a * b, "calloc", __builtin_return_address(0)); }
+  if (in_lib()) { WrapGuard g; led_add(p, a * b, "calloc", __builtin_return_address(0)); if (p) errno = en(errno, true); }
   return p;
 }
 void *__wrap_realloc(void *q, size_t n) {
@@ -295,7 +308,7 @@ void __wrap_free(void *p) {
 }
 char *__wrap_strdup(const char *s) {
   char *p = __real_strdup(s);
-  if (in_lib()) { WrapGuard g; led_add(p, p ? strlen(p) + 1 : 0, "strdup", __builtin_return_address(0)); }
+  if (in_lib()) { WrapGuard g; led_add(p, p ? strlen(p) + 1 : 0, "strdup", __builtin_return_address(0)); if (p) errno = en(errno, true); }
   return p;
 }
 char *__wrap_strndup(const char *s, size_t n) {
@@ -345,7 +358,7 @@ int __wrap_lstat(const char *path, struct stat *sb) {
   if (Fault *f = find_fault("lstat_fail", path)) { fire(f); log_event("lstat", path, -1, (int)f->a); errno = (int)f->a; return -1; }
   int r = __real_lstat(path, sb); int e = errno;
   log_event("lstat", path ? path : "", r, r ? e : 0);
-  errno = e; return r;
+  errno = en(e, r == 0); return r;
 }
 int __wrap_stat(const char *path, struct stat *sb) {
   if (!in_lib()) return __real_stat(path, sb);
@@ -353,7 +366,7 @@ int __wrap_stat(const char *path, struct stat *sb) {
   WrapGuard g;
   int r = __real_stat(path, sb); int e = errno;
   log_event("stat", path ? path : "", r, r ? e : 0);
-  errno = e; return r;
+  errno = en(e, r == 0); return r;
 }
 FILE *__wrap_fopen(const char *path, const char *mode) {
   if (!in_lib()) return __real_fopen(path, mode);
@@ -379,7 +392,7 @@ FILE *__wrap_fopen(const char *path, const char *mode) {
   }
   log_event(rd ? "fopen_r" : "fopen_w", path ? path : "", fp ? 0 : -1, fp ? 0 : e);
   if (fp) { R.files[fp] = {tc ? tc->op : -1, path ? path : ""}; R.n_fopen++; }
-  errno = e; return fp;
+  errno = en(e, fp != nullptr); return fp;
 }
 int __wrap_fclose(FILE *fp) {
   if (!in_lib()) return __real_fclose(fp);
@@ -390,7 +403,7 @@ int __wrap_fclose(FILE *fp) {
   if (it != R.files.end()) { R.files.erase(it); R.n_fclose++; }
   int r = __real_fclose(fp); int e = errno;
   log_event("fclose", p, r, r ? e : 0);
-  errno = e; return r;
+  errno = en(e, r == 0); return r;
 }
 static ssize_t getdelim_common(char **line, size_t *n, int delim, FILE *fp, void *ra) {
   sim_yield(1);
@@ -404,7 +417,7 @@ static ssize_t getdelim_common(char **line, size_t *n, int delim, FILE *fp, void
   } else if (line && *line) {
     auto it = R.live.find(*line); if (it != R.live.end()) it->second.size = *n;
   }
-  errno = e; return r;
+  errno = en(e, r >= 0); return r;
 }
 ssize_t __wrap_getline(char **line, size_t *n, FILE *fp) {
   if (!in_lib()) return __real_getline(line, n, fp);
@@ -421,7 +434,7 @@ char *__wrap_realpath(const char *path, char *resolved) {
   char *r = __real_realpath(path, resolved); int e = errno;
   log_event("realpath", path ? path : "", r ? 0 : -1, r ? 0 : e);
   if (r && !resolved) led_add(r, strlen(r) + 1, "realpath", __builtin_return_address(0));
-  errno = e; return r;
+  errno = en(e, r != nullptr); return r;
 }
 int __wrap_scandir(const char *dir, struct dirent ***namelist, int (*filter)(const struct dirent *),
                    int (*compar)(const struct dirent **, const struct dirent **)) {
@@ -455,6 +468,7 @@ int __wrap_scandir(const char *dir, struct dirent ***namelist, int (*filter)(con
     if (unlink(f.path.c_str()) == 0) { fire(&f); log_event("env_unlink", f.path, 0, 0); }
   }
   *namelist = list;
+  errno = en(errno, true);
   return n;
 }
 } // extern "C"
@@ -1026,6 +1040,7 @@ static json run_plan(const json &plan) {
   R.short_reads = cfg.value("short_reads", 0); R.fill = -1; R.passthrough = cfg.value("passthrough", false);
   R.ledger_on = cfg.value("ledger", true);
   R.io.s = cfg.value("io_seed", (uint64_t)1);
+  R.errno_noise = (cfg.value("errno_noise", false) && !R.passthrough) ? (cfg.value("io_seed", (uint64_t)1) ^ 0xE77E77E77ull) | 1 : 0; R.n_errno_noise = 0;
   setlocale(LC_ALL, cfg.value("locale", std::string("C")).c_str());
   clear_sandbox();
   sim_steps = 0; sim_step_budget = ~0ull;
@@ -1109,6 +1124,7 @@ static json run_plan(const json &plan) {
     out["events"] = ev;
   }
   out["n_events"] = R.ev.size();
+  if (R.n_errno_noise) R.fired["errno_noise"] = R.n_errno_noise;
   json fj = json::object(); for (auto &f : R.fired) fj[f.first] = f.second; out["fired"] = fj;
   // ---- ledger conservation
   if (R.ledger_on) {
